@@ -47,6 +47,20 @@ type Gadget struct {
 	Label string
 }
 
+// Owner and Box give Item (and Gadget) object-typed fields of different
+// types, so that same-alias conflicts below the root merge selection sets
+// that do not fit the first field's type.
+type Owner struct {
+	Name string
+	Rank int64
+}
+
+type Box struct {
+	Label string
+	Size  int64
+	depth int
+}
+
 type Thing struct {
 	schemabuilder.Union
 	*Item
@@ -217,8 +231,32 @@ func buildZoo(hook func(ctx context.Context, name string) error) *graphql.Schema
 		return &Thing{Item: mkItem(it.Id+1, it.depth+1)}, nil
 	})
 	item.FieldFunc("isKind", func(it *Item, args struct{ K Kind }) bool { return it.Kind == args.K })
+	item.FieldFunc("owner", func(ctx context.Context, it *Item) (*Owner, error) {
+		if err := enter(ctx, "owner"); err != nil {
+			return nil, err
+		}
+		return &Owner{Name: fmt.Sprintf("owner%d", it.Id), Rank: it.Id}, nil
+	})
+	item.FieldFunc("box", func(ctx context.Context, it *Item, args struct{ Size *int64 }) (*Box, error) {
+		if err := enter(ctx, "box"); err != nil {
+			return nil, err
+		}
+		return &Box{Label: "box", Size: it.Id}, nil
+	})
+	box := s.Object("Box", Box{})
+	box.FieldFunc("inner", func(b *Box) *Box {
+		if b.depth >= 3 {
+			return nil
+		}
+		return &Box{Label: b.Label + "i", Size: b.Size + 1, depth: b.depth + 1}
+	})
+	box.FieldFunc("owner", func(b *Box) *Owner { return &Owner{Name: "boxowner", Rank: b.Size} })
+	box.FieldFunc("items", func(b *Box, args struct{ First *int64 }) []*Item { return []*Item{mkItem(b.Size%5+1, 2)} })
+	s.Object("Owner", Owner{})
 
-	s.Object("Gadget", Gadget{})
+	gadget := s.Object("Gadget", Gadget{})
+	gadget.FieldFunc("maker", func(g *Gadget) *Owner { return &Owner{Name: "maker", Rank: g.Id} })
+	gadget.FieldFunc("crate", func(g *Gadget) *Box { return &Box{Label: "crate", Size: g.Id} })
 
 	m := s.Mutation()
 	m.FieldFunc("setName", func(ctx context.Context, args struct {
